@@ -2,7 +2,11 @@
 C14 — line-protocol driver (stateful: the loaded plugins and the configuration are sent first).
   reset
   plugin   <id> <parent id | -> <name> <threaded 0|1> <methods>     (top-level plugins in irc.callbacks order)
-  disabled <canonical command> <~ | plugins>
+  disabled <canonical command> <everywhere 0|1> <plugins>
+  dconf    <names>     supybot.commands.disabled
+  odisable <top-level index | ~> <command>     Owner.disable
+  oenable  <plugin name | ~> <command>         Owner.enable
+  restart                                       rebuild the store from the registry value (DisabledCommands())
   default  <canonical command> <plugin>
   important <names>
   cfg      <maxNesting> <maxLen> <detailed 0|1> <errorText> <indexErrorText> <ignored 0|1>
@@ -28,7 +32,7 @@ structure PRec where
 structure DState where
   recs : List PRec := []
   disabled : Disabled := []
-  conf : List Str := []
+  conf : List ConfName := []
   defaults : List (Str × Str) := []
   important : List Str := []
   maxNesting : Nat := 10
@@ -141,10 +145,20 @@ def decBool (f : String) : Option Bool :=
   if f = "1" then some true else if f = "0" then some false else none
 
 def encStore (d : Disabled) : String :=
-  if d.isEmpty then "-" else ";".intercalate (d.map fun e => enc e.1 ++ ":" ++ (match e.2 with | none => "~" | some ps => encList ps))
+  if d.isEmpty then "-" else ";".intercalate (d.map fun e =>
+    enc e.1 ++ ":" ++ (if e.2.1 then "1" else "0") ++ ":" ++ encList e.2.2)
+
+def confStr : ConfName → Str
+  | (none, k) => k
+  | (some p, k) => p ++ '.' :: k
+
+def confOfStr (x : Str) : ConfName :=
+  match split1 '.' x with
+  | some (p, k) => (some p, k)
+  | none => (none, x)
 
 def encOwner (r : OwnerSt × Bool) : String :=
-  (if r.2 then "ok" else "err") ++ "\t" ++ encStore r.1.store ++ "\t" ++ encList r.1.conf
+  (if r.2 then "ok" else "err") ++ "\t" ++ encStore r.1.store ++ "\t" ++ encList (r.1.conf.map confStr)
 
 def step (s : DState) : List String → DState × String
   | ["reset"] => ({}, "ok")
@@ -153,10 +167,11 @@ def step (s : DState) : List String → DState × String
     | some id, some parent, some name, some thr, some methods =>
       ({ s with recs := s.recs ++ [⟨id, parent, name, thr, methods⟩] }, "ok")
     | _, _, _, _, _ => (s, "bad-op")
-  | ["disabled", cmd, ps] =>
-    match dec cmd, (if ps = "~" then some none else (decList ps).map some) with
-    | some cmd, some ps => ({ s with disabled := s.disabled ++ [(cmd, ps)] }, "ok")
-    | _, _ => (s, "bad-op")
+  | ["disabled", cmd, ev, ps] =>
+    match dec cmd, decBool ev, decList ps with
+    | some cmd, some ev, some ps => ({ s with disabled := s.disabled ++ [(cmd, (ev, ps))] }, "ok")
+    | _, _, _ => (s, "bad-op")
+  | ["restart"] => ({ s with disabled := fromConf s.conf.reverse }, encStore (fromConf s.conf.reverse))
   | ["default", cmd, p] =>
     match dec cmd, dec p with
     | some cmd, some p => ({ s with defaults := s.defaults ++ [(cmd, p)] }, "ok")
@@ -196,7 +211,7 @@ def step (s : DState) : List String → DState × String
     | none => (s, "bad-op")
   | ["dconf", names] =>
     match decList names with
-    | some names => ({ s with conf := names }, "ok")
+    | some names => ({ s with conf := names.map confOfStr }, "ok")
     | none => (s, "bad-op")
   | ["odisable", pl, cmd] =>
     match (if pl = "~" then some none else (decNat pl).map some), dec cmd with
